@@ -206,21 +206,31 @@ Init0 ==
   /\ hist = <<>>
 
 \* RoundTrip entry
-Begin(rq) ==
+BeginF(rq, flt) ==
   /\ ex.pc = "idle"
   /\ LET x == ctr.x + 1
          understood == rq.m = "GET" /\ rq.range = 0
      IN /\ ex' = [ pc |-> IF understood THEN "getrefs" ELSE "bypass", x |-> x, rq |-> rq, anss |-> <<>>, na |-> 0,
                    refs |-> <<>>, ri |-> 0, stored |-> NoEnt, fr |-> [stale |-> TRUE, age |-> 0, life |-> 0, zero |-> FALSE],
                    purpose |-> "", got |-> NoEnt, t0 |-> now, out |-> NoEnt, ncalls |-> 0, ops |-> <<>>,
-                   st1 |-> 0, st2 |-> 0, bgq |-> <<>> ]
+                   st1 |-> 0, st2 |-> 0, bgq |-> <<>>, flt |-> flt, nop |-> 0 ]
         /\ ctr' = [ctr EXCEPT !.x = x]
-        /\ led' = Emit([ev |-> "begin", x |-> x, t |-> now, rq |-> rq, nfault |-> 0, hard |-> 0])
+        /\ led' = Emit([ev |-> "begin", x |-> x, t |-> now, rq |-> rq, nfault |-> Cardinality(flt), hard |-> IF flt = {} THEN 0 ELSE 1])
   /\ UNCHANGED <<now, idx, ent, hist>>
+
+Begin(rq) == BeginF(rq, {})
+
+\* does the next store operation of this exchange fail (scripted fault)?
+Faulty == (ex.nop + 1) \in ex.flt
+FaultEv(bg, kind, role, key) ==
+  [ ev |-> "op", x |-> ex.x, bg |-> bg, kind |-> kind, role |-> role,
+    k |-> KeyNo(key), ok |-> 0, nx |-> 0, fault |-> "err", n |-> -1, toks |-> <<>>, tags |-> <<>>, hop |-> 0,
+    nkeys |-> NKeys(idx, ent), maxidx |-> MaxIdx(idx), t |-> now ]
 
 \* cache.GetRefs + VaryHeadersMatch
 GetRefs ==
   /\ ex.pc = "getrefs"
+  /\ ~Faulty
   /\ LET u == ex.rq.u
          has == u \in DOMAIN idx
          refs == IF has THEN SortRefs(idx[u]) ELSE <<>>
@@ -228,7 +238,7 @@ GetRefs ==
          e == EvOp(ex.x, 0, "get", IF has THEN "idx" ELSE "unk", <<"idx", u>>, IF has THEN 1 ELSE 0, IF has THEN 0 ELSE 1,
                    <<>>, <<>>, IF has THEN Len(idx[u]) ELSE -1, idx, ent)
      IN /\ ex' = [ex EXCEPT !.pc = IF Len(refs) = 0 \/ ri = 0 THEN "miss" ELSE "getent", !.refs = refs, !.ri = ri,
-                            !.ops = Append(ex.ops, "get")]
+                            !.ops = Append(ex.ops, "get"), !.nop = ex.nop + 1]
         /\ ctr' = WithKey(ctr, <<"idx", u>>)
         /\ led' = Emit(e)
   /\ UNCHANGED <<now, idx, ent, hist>>
@@ -236,6 +246,7 @@ GetRefs ==
 \* cache.Get(responseID) + ParseResponse + handleCacheHit's decision
 GetEntry ==
   /\ ex.pc = "getent"
+  /\ ~Faulty
   /\ LET id == ex.refs[ex.ri].id
          has == id \in DOMAIN ent
          e == EvOp(ex.x, 0, "get", IF has THEN "ent" ELSE "unk", <<"ent", id>>, IF has THEN 1 ELSE 0, IF has THEN 0 ELSE 1,
@@ -243,10 +254,25 @@ GetEntry ==
      IN /\ ex' = IF has
                    THEN LET d == Decide(ent[id].rep, ex.rq, now) IN
                         [ex EXCEPT !.pc = d, !.stored = ent[id], !.fr = CodeFresh(ent[id].rep, ex.rq, now),
-                                   !.ops = Append(ex.ops, "get")]
-                 ELSE [ex EXCEPT !.pc = "miss", !.ops = Append(ex.ops, "get")]
+                                   !.ops = Append(ex.ops, "get"), !.nop = ex.nop + 1]
+                 ELSE [ex EXCEPT !.pc = "miss", !.ops = Append(ex.ops, "get"), !.nop = ex.nop + 1]
         /\ ctr' = WithKey(ctr, <<"ent", id>>)
         /\ led' = Emit(e)
+  /\ UNCHANGED <<now, idx, ent, hist>>
+
+\* a failing or undecodable Get: the exchange goes on as a miss (fail open)
+GetRefsFault ==
+  /\ ex.pc = "getrefs" /\ Faulty
+  /\ ex' = [ex EXCEPT !.pc = "miss", !.refs = <<>>, !.ri = 0, !.ops = Append(ex.ops, "get"), !.nop = ex.nop + 1]
+  /\ ctr' = WithKey(ctr, <<"idx", ex.rq.u>>)
+  /\ led' = Emit(FaultEv(0, "get", "unk", <<"idx", ex.rq.u>>))
+  /\ UNCHANGED <<now, idx, ent, hist>>
+
+GetEntryFault ==
+  /\ ex.pc = "getent" /\ Faulty
+  /\ ex' = [ex EXCEPT !.pc = "miss", !.ops = Append(ex.ops, "get"), !.nop = ex.nop + 1]
+  /\ ctr' = WithKey(ctr, <<"ent", ex.refs[ex.ri].id>>)
+  /\ led' = Emit(FaultEv(0, "get", "unk", <<"ent", ex.refs[ex.ri].id>>))
   /\ UNCHANGED <<now, idx, ent, hist>>
 
 RetEv(label, st, tok, tag, age, nage, h, err) ==
@@ -255,12 +281,13 @@ RetEv(label, st, tok, tag, age, nage, h, err) ==
     tok |-> tok, tag |-> tag, age |-> age, nage |-> nage, bodyok |-> 1, bodyerr |-> 0, e2eok |-> 1, hopin |-> 0,
     stsame |-> 1, requnch |-> 1, h |-> h ]
 
+FaultList == LET fs == SetToSeq(ex.flt) IN [i \in 1..Len(fs) |-> [n |-> fs[i], kind |-> "err"]]
 Pred(e) == [label |-> e.label, st |-> e.st, tok |-> e.tok, tag |-> e.tag, age |-> e.age, err |-> e.err, ops |-> ex.ops, ncalls |-> ex.ncalls]
 
 \* the exchange is over: log the step, with the model's prediction, into hist
 Finish(e) ==
   /\ led' = Emit(e)
-  /\ hist' = Append(hist, [op |-> "req", rq |-> ex.rq, ans |-> ex.anss, pred |-> Pred(e)])
+  /\ hist' = Append(hist, [op |-> "req", rq |-> ex.rq, faults |-> FaultList, cancel |-> ex.rq.cancel, ans |-> ex.anss, pred |-> Pred(e)])
   /\ ex' = Idle
 
 \* serveFromCache
@@ -334,13 +361,16 @@ SetEnt ==
   /\ LET g == ex.got
          id == IdOf(ex.rq.u, g.rep.vary, g.rep.vs, ex.rq)
          entry == [rep |-> g.rep, tok |-> g.tok, tag |-> g.tag]
-         okset == g.k # "bodyerr"
+         called == g.k # "bodyerr"                 \* DumpResponse failed: cache.Set is not reached
+         okset == called /\ ~Faulty
          ent2 == IF okset THEN [i \in DOMAIN ent \cup {id} |-> IF i = id THEN entry ELSE ent[i]] ELSE ent
-         e == EvOp(ex.x, 0, "set", "ent", <<"ent", id>>, 1, 0, <<g.tok>>, <<g.tag>>, -1, idx, ent2)
+         e == IF okset THEN EvOp(ex.x, 0, "set", "ent", <<"ent", id>>, 1, 0, <<g.tok>>, <<g.tag>>, -1, idx, ent2)
+              ELSE [FaultEv(0, "set", "ent", <<"ent", id>>) EXCEPT !.toks = <<g.tok>>, !.tags = <<g.tag>>]
      IN /\ ent' = ent2
-        /\ ctr' = IF okset THEN WithKey(ctr, <<"ent", id>>) ELSE ctr
-        /\ led' = IF okset THEN Emit(e) ELSE led
-        /\ ex' = [ex EXCEPT !.pc = "setidx", !.ops = IF okset THEN Append(ex.ops, "set") ELSE ex.ops]
+        /\ ctr' = IF called THEN WithKey(ctr, <<"ent", id>>) ELSE ctr
+        /\ led' = IF called THEN Emit(e) ELSE led
+        /\ ex' = [ex EXCEPT !.pc = "setidx", !.ops = IF called THEN Append(ex.ops, "set") ELSE ex.ops,
+                            !.nop = IF called THEN ex.nop + 1 ELSE ex.nop]
   /\ UNCHANGED <<now, idx, hist>>
 
 \* StoreResponse, second half: cache.SetRefs(urlKey, refs)
@@ -353,8 +383,9 @@ SetIdx ==
          ref == [ vary |-> g.rep.vary, vs |-> g.rep.vs, res |-> ResOf(g.rep.vary, g.rep.vs, ex.rq), id |-> id,
                   date |-> g.rep.date, seq |-> IF seqs = {} THEN 1 ELSE 1 + CHOOSE m \in seqs : \A n \in seqs : n <= m ]
          refs2 == NewRefs(ex.refs, ex.ri, ref)
-         idx2 == [v \in DOMAIN idx \cup {u} |-> IF v = u THEN refs2 ELSE idx[v]]
-         e == EvOp(ex.x, 0, "set", "idx", <<"idx", u>>, 1, 0, <<>>, <<>>, Len(refs2), idx2, ent)
+         idx2 == IF Faulty THEN idx ELSE [v \in DOMAIN idx \cup {u} |-> IF v = u THEN refs2 ELSE idx[v]]
+         e == IF Faulty THEN [FaultEv(0, "set", "idx", <<"idx", u>>) EXCEPT !.n = Len(refs2)]
+              ELSE EvOp(ex.x, 0, "set", "idx", <<"idx", u>>, 1, 0, <<>>, <<>>, Len(refs2), idx2, ent)
      IN /\ idx' = idx2
         /\ ctr' = WithKey(ctr, <<"idx", u>>)
         /\ LET L2 == Emit(e)
@@ -363,7 +394,7 @@ SetIdx ==
                      ELSE RetEv("MISS", g.rep.st, g.tok, g.tag, g.rep.age, IF g.rep.age = None THEN 0 ELSE 1, HOf(g.rep), 0)
                ex1 == [ex EXCEPT !.ops = Append(ex.ops, "set")]
            IN /\ led' = OnRet(L2, ev, 0)
-              /\ hist' = Append(hist, [op |-> "req", rq |-> ex.rq, ans |-> ex.anss,
+              /\ hist' = Append(hist, [op |-> "req", rq |-> ex.rq, faults |-> FaultList, cancel |-> ex.rq.cancel, ans |-> ex.anss,
                                        pred |-> [label |-> ev.label, st |-> ev.st, tok |-> ev.tok, tag |-> ev.tag, age |-> ev.age,
                                                  err |-> 0, ops |-> ex1.ops, ncalls |-> ex.ncalls]])
               /\ ex' = Idle
@@ -482,7 +513,7 @@ SwrServe ==
          nage == IF "swr_stored_age" \in Defects /\ r.age = None THEN 0 ELSE 1
          e == RetEv("STALE", r.st, ex.stored.tok, ex.stored.tag, age, nage, StoreH(r), 0)
      IN /\ led' = Emit(e)
-        /\ hist' = Append(hist, [op |-> "req", rq |-> ex.rq, ans |-> ex.anss, pred |-> Pred(e)])
+        /\ hist' = Append(hist, [op |-> "req", rq |-> ex.rq, faults |-> FaultList, cancel |-> ex.rq.cancel, ans |-> ex.anss, pred |-> Pred(e)])
         /\ ex' = [ex EXCEPT !.pc = "bgorigin"]
   /\ UNCHANGED <<now, idx, ent, ctr>>
 
@@ -503,11 +534,25 @@ BgOrigin(a) ==
                 hsame |-> 1, url |-> "" ]
      IN /\ ctr' = [ctr EXCEPT !.tag = tagn, !.tok = tokn]
         /\ led' = Emit(e)
-        /\ ex' = [ex EXCEPT !.pc = "bghandle", !.na = ex.na + 1, !.ncalls = ex.ncalls + 1,
+        /\ ex' = [ex EXCEPT !.pc = IF a.k \in {"err", "hang"} \/ "bg_shares_response" \in Defects THEN "bghandle" ELSE "bggetent",
+                            !.na = ex.na + 1, !.ncalls = ex.ncalls + 1,
                             !.got = [k |-> a.k, rep |-> rep, tok |-> tok, tag |-> tag, t0 |-> now, t1 |-> now]]
         \* the background answer belongs to the step that was already logged at the return
         /\ hist' = [hist EXCEPT ![Len(hist)].ans = Append(hist[Len(hist)].ans, a)]
         /\ UNCHANGED <<now, idx, ent>>
+
+\* the background task reads its own copy of the entry (the served one belongs to the caller)
+BgGetEnt ==
+  /\ ex.pc = "bggetent"
+  /\ LET id == ex.refs[ex.ri].id
+         has == id \in DOMAIN ent /\ ~Faulty
+         e == IF Faulty THEN FaultEv(1, "get", "unk", <<"ent", id>>)
+              ELSE EvOp(ex.x, 1, "get", IF has THEN "ent" ELSE "unk", <<"ent", id>>, IF has THEN 1 ELSE 0, IF has THEN 0 ELSE 1,
+                        IF has THEN <<ent[id].tok>> ELSE <<>>, IF has THEN <<ent[id].tag>> ELSE <<>>, -1, idx, ent)
+     IN /\ led' = Emit(e)
+        /\ ctr' = WithKey(ctr, <<"ent", id>>)
+        /\ ex' = IF has THEN [ex EXCEPT !.pc = "bghandle", !.stored = ent[id], !.nop = ex.nop + 1] ELSE Idle
+  /\ UNCHANGED <<now, idx, ent, hist>>
 
 \* HandleValidationResponse in the background: only its store effects matter
 BgHandle ==
@@ -532,13 +577,15 @@ BgSetEnt ==
   /\ LET g == ex.got
          id == IdOf(ex.rq.u, g.rep.vary, g.rep.vs, ex.rq)
          entry == [rep |-> g.rep, tok |-> g.tok, tag |-> g.tag]
-         okset == g.k # "bodyerr"
+         called == g.k # "bodyerr"
+         okset == called /\ ~Faulty
          ent2 == IF okset THEN [i \in DOMAIN ent \cup {id} |-> IF i = id THEN entry ELSE ent[i]] ELSE ent
-         e == EvOp(ex.x, 1, "set", "ent", <<"ent", id>>, 1, 0, <<g.tok>>, <<g.tag>>, -1, idx, ent2)
+         e == IF okset THEN EvOp(ex.x, 1, "set", "ent", <<"ent", id>>, 1, 0, <<g.tok>>, <<g.tag>>, -1, idx, ent2)
+              ELSE [FaultEv(1, "set", "ent", <<"ent", id>>) EXCEPT !.toks = <<g.tok>>, !.tags = <<g.tag>>]
      IN /\ ent' = ent2
-        /\ ctr' = IF okset THEN WithKey(ctr, <<"ent", id>>) ELSE ctr
-        /\ led' = IF okset THEN Emit(e) ELSE led
-        /\ ex' = [ex EXCEPT !.pc = "bgsetidx"]
+        /\ ctr' = IF called THEN WithKey(ctr, <<"ent", id>>) ELSE ctr
+        /\ led' = IF called THEN Emit(e) ELSE led
+        /\ ex' = [ex EXCEPT !.pc = "bgsetidx", !.nop = IF called THEN ex.nop + 1 ELSE ex.nop]
   /\ UNCHANGED <<now, idx, hist>>
 
 BgSetIdx ==
@@ -550,8 +597,9 @@ BgSetIdx ==
          ref == [ vary |-> g.rep.vary, vs |-> g.rep.vs, res |-> ResOf(g.rep.vary, g.rep.vs, ex.rq), id |-> id,
                   date |-> g.rep.date, seq |-> IF seqs = {} THEN 1 ELSE 1 + CHOOSE m \in seqs : \A n \in seqs : n <= m ]
          refs2 == NewRefs(ex.refs, ex.ri, ref)
-         idx2 == [v \in DOMAIN idx \cup {u} |-> IF v = u THEN refs2 ELSE idx[v]]
-         e == EvOp(ex.x, 1, "set", "idx", <<"idx", u>>, 1, 0, <<>>, <<>>, Len(refs2), idx2, ent)
+         idx2 == IF Faulty THEN idx ELSE [v \in DOMAIN idx \cup {u} |-> IF v = u THEN refs2 ELSE idx[v]]
+         e == IF Faulty THEN [FaultEv(1, "set", "idx", <<"idx", u>>) EXCEPT !.n = Len(refs2)]
+              ELSE EvOp(ex.x, 1, "set", "idx", <<"idx", u>>, 1, 0, <<>>, <<>>, Len(refs2), idx2, ent)
      IN /\ idx' = idx2
         /\ ctr' = WithKey(ctr, <<"idx", u>>)
         /\ led' = Emit(e)
@@ -559,6 +607,6 @@ BgSetIdx ==
   /\ UNCHANGED <<now, ent, hist>>
 
 \* every step except Begin, Tick and the two origin calls (whose answers the configuration chooses)
-Internal == GetRefs \/ GetEntry \/ Serve \/ Ret504 \/ Miss \/ Revalidate \/ Missed \/ SetEnt \/ SetIdx \/ Handle
-            \/ Bypass \/ Bypassed \/ InvStep \/ SwrServe \/ BgHandle \/ BgSetEnt \/ BgSetIdx
+Internal == GetRefs \/ GetEntry \/ GetRefsFault \/ GetEntryFault \/ Serve \/ Ret504 \/ Miss \/ Revalidate \/ Missed
+            \/ SetEnt \/ SetIdx \/ Handle \/ Bypass \/ Bypassed \/ InvStep \/ SwrServe \/ BgGetEnt \/ BgHandle \/ BgSetEnt \/ BgSetIdx
 =============================================================================
